@@ -6,11 +6,13 @@
   comparison `a / b > c` the source makes is decided without floating point.
 
   Modelled, not verified (trusted base, exercised by the correspondence run on the boundary values ±1 ns):
-  CPython computes `a / b` as the correctly rounded double of the exact quotient and compares it exactly with the int
-  `c`.  For |a| < 2^53 and b = 10^6 the rounded quotient is on the same side of every integer c (|c| < 2^31) as the
-  exact one unless the exact quotient is within 2^-22 of c, which needs |a − c·b| < 1 — i.e. equality.  The generators
-  stay inside that range (offsets < 2^50 ns ≈ 13 days).  Denominators are literals of the source; the order below is
-  the order of the rationals when both denominators are positive.
+  CPython computes `a / b` (ints) as the correctly rounded double of the exact quotient and compares it exactly with the int
+  `c`.  For b = 10^6 and |c| < 2^32 the comparison `a / b > c` has the same outcome as the exact `a > c·b`: `c` is
+  representable; if a > c·b the exact quotient is ≥ c + 10^-6 while half an ulp below 2^32 is < 2.4·10^-7, so the rounded
+  quotient stays > c; if a ≤ c·b the quotient is ≤ c and monotone rounding keeps it ≤ c.  The magnitude of `a` does not
+  matter.  For larger |c| the outcomes differ (c = 10^13, a = c·b + 1: Python says False) — `C05.BudgetInRange` carries the
+  range into the statements.  This argument is on paper (no float model in Lean).  Denominators are literals of the
+  source; the order below is the order of the rationals when both denominators are positive.
 -/
 namespace TimeBase
 
